@@ -8,7 +8,7 @@ import subprocess
 import sys
 
 from ..cfg import NORMAL, ALL, walk_local, has_suspension
-from ..facts import (cfg_of, call_name, calls_in, targets_of, guard_atoms,
+from ..facts import (runs_only_when, cfg_of, call_name, calls_in, targets_of, guard_atoms,
                      is_attr, is_name, enclosing, local_assigns, kwarg,
                      const_value, strip_await, resolve_local, bind_args,
                      writers_of)
@@ -244,10 +244,8 @@ def _invariant_ok(ctx, cg, es, e) -> str | None:
         cfgf = cfg_of(f)
         nodes = [n for n in cfgf.stmt_nodes() if n.lineno == e.line]
         on_str_branch = any(
-            t.kind == 'test' and guard_atoms(t.stmt.test) ==
-            [('isinstance(value, bytes)', True)]
-            and cfgf.controlled_by(n, t, 'f')
-            for n in nodes for t in cfgf.nodes)
+            runs_only_when(cfgf, n, 'isinstance(value, bytes)', False)
+            for n in nodes)
         p = f.cls.find_method('parse')
         from_bytes = p is not None and all(
             'atom.value' in txt(r.value.elts[0])
@@ -975,11 +973,9 @@ def r69(ctx) -> None:
             n_exp += 1
             ok = False
             for n in cfg.node_containing(c):
-                for t in cfg.nodes:
-                    if t.kind == 'test' and guard_atoms(t.stmt.test) == [
-                            ('params.allow_continuations', True)] and \
-                            cfg.controlled_by(n, t, 't'):
-                        ok = True
+                if runs_only_when(cfg, n, 'params.allow_continuations',
+                                  True):
+                    ok = True
             R.check(ok, f, c, f'{f.qualname}: expect() only under '
                     f'params.allow_continuations',
                     'a continuation is requested (ParsingInterrupt raised) '
